@@ -7,7 +7,30 @@ COMMON_TB = [
     "Rust std semantics for the primitives the models take as given (integer ops on i32/i64, Vec, f64::to_bits/from_bits)",
 ]
 
+import re
+
+
 PROPS = {
+    "C01": {
+        "coq_targets": ["theories/VM/Corr.vo", "theories/VM/GenProofs.vo"],
+        "harness": ["c01"],
+        "tables": True,
+        "disagreement_is_violation": True,
+        # two cases per program: "sem ..." (reference semantics vs observed run) and "model ..." (all legs);
+        # only a difference from the reference semantics is a failing input
+        "failing_input_desc": r"(sem|value) ",
+        "axioms": [],
+        "trusted_base": COMMON_TB + [
+            "Coq.Floats.SpecFloat as the definition of IEEE-754 arithmetic (see C06); decimal text of numbers (Rust Display) is modelled exactly only for whole numbers and multiples of 1/8 (Lang/NumText.v); programs printing other numbers are compared on outcome and variables only",
+            "modelled, not verified: Lang/Sem.v (big-step reference semantics written from the language rules), VM/Gen.v (rusty_basic/src/instruction_generator/{expression,statement,main,if_block,loops,select_case,print,label_resolver}.rs for the core fragment), VM/Machine.v (interpreter/main.rs fetch-execute loop and the handlers of the ~35 instructions the fragment uses), Val/Arith2.v (divide, modulo, comparisons, AND/OR/NOT of rusty_variant)",
+            "harness/src/c01.rs: program generator, its printer (source text with positions) and the Coq literal printer for the AST, the implementation's instruction list, statement addresses, outcome, stdout and final variables (hook Context::verif_*); the list of implicitly declared variables is taken from the implementation's own DIM prefix",
+            "NOT modelled: DATA/READ, sub-programs, arrays, user-defined types, string functions inside core programs, ON ERROR; the parser and linter are exercised (programs go through them) but only their output is compared, through the instruction list",
+        ],
+        "assumptions": [
+            "theorems cover all expressions and straight-line programs; IF/SELECT/FOR/WHILE/DO are decided per generated program by evaluating Corr.check_c01 in Coq (translation-validation style), not by a universal theorem",
+            "expressions are well-typed (the linter's job, C12)",
+        ],
+    },
     "C19": {
         "coq_targets": ["theories/Val/F64Codec.vo"],
         "harness": ["c19"],
